@@ -82,6 +82,15 @@ func verifDir() string {
 	return "/verif"
 }
 
+// evidenceDir is where evidence and replay files go; selftest.sh redirects it so
+// that runs over mutated scratch trees do not overwrite the real evidence.
+func evidenceDir() string {
+	if d := os.Getenv("VERIF_EVIDENCE_DIR"); d != "" {
+		return d
+	}
+	return filepath.Join(verifDir(), "evidence")
+}
+
 func loadTables() (*Tables, error) {
 	t := &Tables{Audited: map[string]AuditEntry{}, Known: map[string]FindingEntry{}, usedAud: map[string]bool{}}
 	files, _ := filepath.Glob(filepath.Join(verifDir(), "tables", "audited*.json"))
@@ -162,7 +171,7 @@ type replayRecord struct {
 }
 
 func writeReplay(prop, tier string, o Obligation, doc string) string {
-	dir := filepath.Join(verifDir(), "evidence", "replay")
+	dir := filepath.Join(evidenceDir(), "replay")
 	_ = os.MkdirAll(dir, 0o755)
 	p := filepath.Join(dir, fmt.Sprintf("%s-%s.json", prop, shortHash(o.Key()+o.Config)))
 	rec := replayRecord{Property: prop, Tier: tier, Obligation: o, RuleDoc: doc,
